@@ -363,3 +363,23 @@ Theorem gen_tie_GetHead_signer_check : forall (signer : bytes) (expected : optio
   = Some (match expected with None => true | Some e => Bytes.bytes_eqb signer e end).
 Proof. exact GenTie_C03.tie_GetHead_signer_check. Qed.
 Print Assumptions gen_tie_GetHead_signer_check.
+
+(* ---- phase 2: further ties to the Gallina regenerated from the Go source (proofs/GenTie_C03.v) ---- *)
+From Coq Require Import ZArith NArith List Bool Lia String.
+From Lib Require Import Bytes Cid.
+From Model Require Import C03_SignedHead.
+From Proofs Require Import GenTie_Lib.
+From Gen Require Import Gen_Consts Gen_Funcs_prelude Gen_Funcs_head Gen_Funcs_ipnisync.
+Import ListNotations.
+Local Open Scope Z_scope.
+From Proofs Require Import GenTie_C03.
+
+Theorem gen_tie_Validate_verify : forall (ok : bool) (err : option string),
+  match head_Validate_verify (ok, err) with
+  | FFall _ => ok = true /\ err = None
+  | FReturn s _ => (ok = false \/ err <> None) /\
+                   (err = None -> s = "return """", ErrBadSignature"%string)
+  | _ => False
+  end.
+Proof. exact GenTie_C03.tie_Validate_verify. Qed.
+Print Assumptions gen_tie_Validate_verify.
